@@ -214,6 +214,7 @@ def gen_alloc(rng, tier):
             rust.append("b" if kind == "b" else "a"); coq.append("FAlloc")
             return p
 
+        btree.append(alloc("b"))                    # never an empty case
         for _ in range(rng.choice([10, 30, 80])):
             r = rng.random()
             if r < 0.25:
